@@ -57,6 +57,7 @@ type closureInfo struct {
 
 // Verifier verifies one function against its contract.
 type Verifier struct {
+	rangeName      map[ssa.Value]string // per map range instruction: name of its ghost set of produced keys
 	exitChecked    map[int]bool         // loops whose exit clauses were emitted on at least one path
 	rangeEntryHas  map[ssa.Value]string // per map range: presence array of the map when the range started
 	prog           *Program
@@ -1187,8 +1188,14 @@ func (v *Verifier) havocLoop(li *loopInfo, st *State) {
 					}
 				}
 			case *ssa.Next:
-				if !x.IsString && v.env.rangeKeySort != "" {
-					maps["RV!"] = arr(v.env.rangeKeySort, "Bool")
+				if !x.IsString {
+					if rg, ok := x.Iter.(*ssa.Range); ok {
+						if mt, ok := rg.X.Type().Underlying().(*types.Map); ok {
+							if n := v.rangeName[x.Iter]; n != "" {
+								maps[n] = arr(v.env.sr.sortOf(mt.Key()), "Bool")
+							}
+						}
+					}
 				}
 			case *ssa.MapUpdate:
 				mt := x.Map.Type().Underlying().(*types.Map)
@@ -1667,8 +1674,19 @@ func (v *Verifier) execInstr(st *State, in ssa.Instruction) {
 		{
 			mt := x.X.Type().Underlying().(*types.Map)
 			_, mp, _, ks := v.env.mapNames(mt)
-			v.env.rangeKeySort = ks
-			v.env.heapSet(st, "RV!", arr(ks, "Bool"), "((as const "+arr(ks, "Bool")+") false)")
+			if v.rangeName == nil {
+				v.rangeName = map[ssa.Value]string{}
+			}
+			if _, seen := v.rangeName[x]; !seen {
+				v.rangeName[x] = fmt.Sprintf("RV!%d", len(v.rangeName))
+			}
+			// the spec function rangevisited refers to the map range of the function; with several map ranges it is ambiguous
+			if v.env.rangeMap == "" || v.env.rangeMap == v.rangeName[x] {
+				v.env.rangeMap, v.env.rangeKeySort = v.rangeName[x], ks
+			} else {
+				v.env.rangeMap = "?"
+			}
+			v.env.heapSet(st, v.rangeName[x], arr(ks, "Bool"), "((as const "+arr(ks, "Bool")+") false)")
 			pres := v.env.heapGet(st, mp, arr("Int", arr(ks, "Bool")))
 			if v.rangeEntryHas == nil {
 				v.rangeEntryHas = map[ssa.Value]string{}
@@ -1694,7 +1712,11 @@ func (v *Verifier) execInstr(st *State, in ssa.Instruction) {
 		{
 			_, mp, _, ks := v.env.mapNames(mt)
 			rvs := arr(ks, "Bool")
-			rv := v.env.heapGet(st, "RV!", rvs)
+			rvName := v.rangeName[x.Iter]
+			if rvName == "" {
+				v.unsupportedf("next on an unknown map range at %s", v.posOf(x))
+			}
+			rv := v.env.heapGet(st, rvName, rvs)
 			kk := k
 			if ks == "Val" && kk.Sort != "Val" {
 				kk = v.env.makeIface(kk)
@@ -1704,7 +1726,7 @@ func (v *Verifier) execInstr(st *State, in ssa.Instruction) {
 				pres := v.env.heapGet(st, mp, arr("Int", arr(ks, "Bool")))
 				st.assume(implies(not(ok), "(forall ((rk!k "+ks+")) (! (=> (and (select "+eh+" rk!k) (select "+sel2(pres, m.T)+" rk!k)) (select "+rv+" rk!k)) :pattern ((select "+rv+" rk!k))))"))
 			}
-			v.env.heapSet(st, "RV!", rvs, ite(ok, "(store "+rv+" "+kk.T+" true)", rv))
+			v.env.heapSet(st, rvName, rvs, ite(ok, "(store "+rv+" "+kk.T+" true)", rv))
 		}
 		val := v.env.mapGet(st, m, k)
 		v.assumeTypeFacts(st, val)
@@ -2505,7 +2527,7 @@ func (v *Verifier) frameFormulas(st *State, asGoal bool) []frameF {
 				continue // history ghosts are outside every frame
 			}
 		}
-		if name == "RV!" {
+		if strings.HasPrefix(name, "RV!") {
 			continue // the ghost set of keys produced by a map range is not program state
 		}
 		wild := false
